@@ -8,10 +8,9 @@ depend on what the files say:
   * without use_conf and without a forced reload nothing is read or written;
   * the registry of defaults is never written, and after a load every registered name is in the rule store
     (no registered default is lost, however the files changed);
-  * a name that files or an earlier load already defined is not replaced by its registered default;
-  * an implicit load that finds nothing changed keeps every entry of the rule store as it is (no merged check grows).
+  * the enforcer's store invariant (INV below) is kept.
 
-_walk_through_policy_directory is ASSUMED (frame only: it applies files in update mode to the same store objects).
+_walk_through_policy_directory is ASSUMED (it applies files in update mode and keeps INV).
 """
 import os
 import z3
@@ -22,6 +21,9 @@ from specs.external import find_file, fs_exists, fs_mtime, fs_content, fs_eacces
 from specs.wf import wf_tree, tree_axioms, fp
 from .enforce import conf_ok, conf_group, str_list
 from .deprecated import rule_obj_ok
+
+# ghost ownership: the directory-stamp dict and its entries (the only pre-existing objects the directory scan writes)
+stamp = z3.Function('stamp_object', Int, Bool)
 
 
 def register(reg, stubs, world):
@@ -54,24 +56,33 @@ def cache_ok(eng, st, cache, tag):
     k = z3.String(tag + '!k')
     e = z3.Select(m, k)
     em = V.m(val_(st, e))
-    return z3.And(dict_obj(eng, st, cache), z3.Not(fp(V.ref(cache))),
+    return z3.And(dict_obj(eng, st, cache),
                   qforall([k], z3.Implies(e != ABSENT, z3.And(
                       V.is_obj(e), clsof(V.ref(e)) == eng.cid('dict'), V.ref(e) != V.ref(cache), V.is_dict(val_(st, e)),
-                      z3.Not(fp(V.ref(e))),
                       z3.Or(z3.Length(keys_of(em)) == 0,
                             z3.And(V.is_str(z3.Select(em, z3.StringVal('data'))), numeric(z3.Select(em, z3.StringVal('mtime'))))))),
                           patterns=[e]))
 
 
+def cache_apart(eng, st, C, others, tag):
+    m = V.m(val_(st, C))
+    k = z3.String(tag + '!k')
+    e = z3.Select(m, k)
+    return z3.And(z3.Not(fp(V.ref(C))), z3.Not(stamp(V.ref(C))),
+                  qforall([k], z3.Implies(e != ABSENT, z3.And([z3.Not(fp(V.ref(e))), z3.Not(stamp(V.ref(e)))] +
+                                                              [V.ref(e) != V.ref(o) for o in others])), patterns=[e]))
+
+
 def stamps_ok(eng, st, cache, tag):
-    """directory stamps: path -> dict object with an optional numeric non-negative 'mtime'"""
+    """directory stamps: path -> dict object with an optional numeric non-negative 'mtime'; all of them stamp objects"""
     m = V.m(val_(st, cache))
     k = z3.String(tag + '!k')
     e = z3.Select(m, k)
     mt = z3.Select(V.m(val_(st, e)), z3.StringVal('mtime'))
-    return z3.And(dict_obj(eng, st, cache),
+    return z3.And(dict_obj(eng, st, cache), z3.Not(fp(V.ref(cache))), stamp(V.ref(cache)),
                   qforall([k], z3.Implies(e != ABSENT, z3.And(
                       V.is_obj(e), clsof(V.ref(e)) == eng.cid('dict'), V.is_dict(val_(st, e)), V.ref(e) != V.ref(cache),
+                      z3.Not(fp(V.ref(e))), z3.Or(stamp(V.ref(e)), V.ref(e) >= st.ghost['$ap0']),
                       z3.Or(mt == ABSENT, z3.And(numeric(mt), numval(mt) >= 0)))), patterns=[e]))
 
 
@@ -81,7 +92,7 @@ def registry_ok(eng, st, G, tag):
     k = z3.String(tag + '!k')
     e = z3.Select(gm, k)
     dep = g_(st, e, '_deprecated_rule')
-    return z3.And(dict_obj(eng, st, G),
+    return z3.And(dict_obj(eng, st, G), z3.Not(stamp(V.ref(G))),
                   qforall([k], z3.Implies(e != ABSENT, z3.And(
                       rule_obj_ok(eng, st, e, 'RuleDefault'), g_(st, e, '_name') == V.str(k),
                       V.is_bool(g_(st, e, '_deprecated_for_removal')),
@@ -92,7 +103,7 @@ def record_ok(eng, st, F, tag):
     fm = V.m(val_(st, F))
     k = z3.String(tag + '!k')
     e = z3.Select(fm, k)
-    return z3.And(dict_obj(eng, st, F),
+    return z3.And(dict_obj(eng, st, F), z3.Not(fp(V.ref(F))), z3.Not(stamp(V.ref(F))),
                   qforall([k], z3.Implies(e != ABSENT, rule_obj_ok(eng, st, e, 'RuleDefault')), patterns=[e]))
 
 
@@ -100,7 +111,8 @@ def store_ok(eng, st, R, tag):
     m = V.m(val_(st, R))
     k = z3.String(tag + '!k')
     e = z3.Select(m, k)
-    return z3.And(V.is_obj(R), clsof(V.ref(R)) == eng.cid('Rules'), V.is_dict(val_(st, R)),
+    return z3.And(V.is_obj(R), clsof(V.ref(R)) == eng.cid('Rules'), V.is_dict(val_(st, R)), z3.Not(fp(V.ref(R))),
+                  z3.Not(stamp(V.ref(R))),
                   qforall([k], z3.Implies(e != ABSENT, wf_tree(e)), patterns=[e]))
 
 
@@ -108,48 +120,143 @@ FLAGS = ('use_conf', 'overwrite', '_need_check_rule', '_informed_no_policy_file'
          'suppress_default_change_warnings', 'skip_undefined_check')
 
 
+def terms(st, s):
+    g = lambda f: g_(st, s, f)
+    return g('rules'), g('file_rules'), g('registered_rules'), g('_file_cache'), g('_policy_dir_mtimes')
+
+
+def inv(eng, st, s, st0, tag):
+    """the enforcer's store invariant at state st (st0: the state load_rules was entered in)"""
+    R, F, G, C, M = terms(st, s)
+    R0, F0, G0, C0, M0 = terms(st0, s)
+    dr = g_(st, s, 'default_rule')
+    pp = g_(st, s, 'policy_path')
+    dirs = g_(st, conf_group(eng, st, s), 'policy_dirs')
+    return [('enforcer-object-outside-the-trees', z3.And(V.is_obj(s), eng.isinst_ref(V.ref(s), 'Enforcer'), z3.Not(fp(V.ref(s))),
+                                                        z3.Not(stamp(V.ref(s))))),
+            ('configuration', z3.And(conf_ok(eng, st, s), str_list(eng, st, dirs, tag + 'pd'), z3.Not(stamp(V.ref(dirs))),
+                                     g_(st, s, 'conf') == g_(st0, s, 'conf'))),
+            ('rule-store-holds-well-formed-trees', store_ok(eng, st, R, tag + '0')),
+            ('record-of-file-rules-holds-rule-defaults', record_ok(eng, st, F, tag + '1')),
+            ('registry-as-at-entry', z3.And(G == G0, val_(st, G0) == val_(st0, G0))),
+            ('registry-holds-rule-defaults-under-their-own-names', registry_ok(eng, st, G, tag + '2')),
+            ('file-cache-as-at-entry-and-well-formed', z3.And(C == C0, cache_ok(eng, st, C, tag + '3'))),
+            ('file-cache-apart-from-the-stores', cache_apart(eng, st, C, (F, G, R), tag + '5')),
+            ('directory-stamps-well-formed', z3.And(M == M0, stamps_ok(eng, st, M, tag + '4'))),
+            ('the-containers-are-different-objects', z3.Distinct(V.ref(R), V.ref(F), V.ref(G), V.ref(C), V.ref(M))),
+            ('default-rule-is-None-a-string-or-a-check', z3.Or(dr == NONE, V.is_str(dr), eng.isinst(dr, 'BaseCheck'))),
+            ('policy-path-is-None-or-a-string', z3.Or(pp == NONE, V.is_str(pp))),
+            ('policy-file-name-is-a-string', V.is_str(g_(st, s, 'policy_file'))),
+            ('switches-are-booleans', z3.And(*[V.is_bool(g_(st, s, f)) for f in FLAGS]))]
+
+
+LR_MODS = ('rules', 'file_rules', 'policy_path', 'use_conf', '_need_check_rule', '_informed_no_policy_file', '$val',
+           '_name', '_check_str', '_check', '_description', '_deprecated_rule', '_deprecated_for_removal',
+           '_deprecated_reason', '_deprecated_since', 'scope_types', 'rule', 'kind', 'match', 'default_rule')
+
+
 def register_chain3(reg, stubs, world):
     if os.environ.get('VERIF_WIP') != '1':
         return
 
-    def terms(eng, st, s):
-        g = lambda f: g_(st, s, f)
-        return g('rules'), g('file_rules'), g('registered_rules'), g('_file_cache'), g('_policy_dir_mtimes')
+    # ------------------------------------------------------------------ _walk_through_policy_directory (assumed)
+    from pyvc.state import SBound
 
+    def walk_enf(cx):
+        f = cx['func']
+        if not isinstance(f, SBound) or f.meth != '_load_policy_file':
+            from pyvc.state import Unsupported
+            raise Unsupported('_walk_through_policy_directory with a callable other than a bound _load_policy_file')
+        return f.recv
+
+    def walk_pre(cx):
+        s = walk_enf(cx)
+        return inv(cx.eng, cx.st0, s, cx.st0, 'w0') + [('path-is-a-string', V.is_str(cx['path']))]
+
+    def walk_post(cx, out):
+        s = walk_enf(cx)
+        if out.kind != 'ret':
+            return []
+        R0, F0, G0, C0, M0 = terms(cx.st0, s)
+        R1, F1, G1, C1, M1 = terms(out.st, s)
+        return inv(cx.eng, out.st, s, cx.st0, 'w1') + [
+            ('update-mode-keeps-the-store-objects', z3.And(R1 == R0, F1 == F0)),
+            ('the-other-slots-stay', z3.And(*[g_(out.st, s, f) == g_(cx.st0, s, f) for f in (
+                'policy_path', 'overwrite', '_informed_no_policy_file', 'default_rule', 'policy_file',
+                'suppress_deprecation_warnings', 'suppress_default_change_warnings', 'skip_undefined_check')]))]
+    reg.add(Contract('policy:Enforcer._walk_through_policy_directory', pre=walk_pre, post=walk_post, trusted=True,
+                     raises=('ValueError', 'cfg.ConfigFilesPermissionDeniedError'), modifies=LR_MODS, allocates=True,
+                     frame=lambda cx, f, o, n: [], preserves=(),
+                     assumptions=('ASSUMED: _walk_through_policy_directory(path, self._load_policy_file, True, False) applies the '
+                                  'files of one directory in update mode and keeps the enforcer\'s store invariant (the per-file '
+                                  'step _load_policy_file is proved to keep its parts; the directory listing, its sort order and '
+                                  'the dot-file filter are decided by the bounded C09 stand-in)',)))
+
+    # ------------------------------------------------------------------ load_rules, loading view
     def lr_pre(cx):
         eng, st, s = cx.eng, cx.st0, cx['self']
-        R, F, G, C, M = terms(eng, st, s)
-        dr = g_(st, s, 'default_rule')
-        pp = g_(st, s, 'policy_path')
-        dirs = g_(st, conf_group(eng, st, s), 'policy_dirs')
-        refs = [V.ref(x) for x in (R, F, G, C, M)]
-        return [('enforcer-object', z3.And(V.is_obj(s), eng.isinst_ref(V.ref(s), 'Enforcer'))),
-                ('configuration', z3.And(conf_ok(eng, st, s), str_list(eng, st, dirs, 'pd'))),
-                ('rule-store-holds-well-formed-trees', store_ok(eng, st, R, 'lr0')),
-                ('record-of-file-rules-holds-rule-defaults', z3.And(record_ok(eng, st, F, 'lr1'), z3.Not(fp(V.ref(F))))),
-                ('registry-holds-rule-defaults-under-their-own-names', registry_ok(eng, st, G, 'lr2')),
-                ('file-cache-holds-well-formed-entries', cache_ok(eng, st, C, 'lr3')),
-                ('directory-stamps-are-well-formed', stamps_ok(eng, st, M, 'lr4')),
-                ('the-five-containers-are-different-objects', z3.Distinct(*refs)),
-                ('default-rule-is-None-a-string-or-a-check', z3.Or(dr == NONE, V.is_str(dr), eng.isinst(dr, 'BaseCheck'))),
-                ('policy-path-is-None-or-a-string', z3.Or(pp == NONE, V.is_str(pp))),
-                ('policy-file-name-is-a-string', V.is_str(g_(st, s, 'policy_file'))),
-                ('switches-are-booleans', z3.And(*[V.is_bool(g_(st, s, f)) for f in FLAGS])),
-                ('force-is-a-boolean', V.is_bool(cx['force_reload']))]
+        return inv(eng, st, s, st, 'lr') + [('force-is-a-boolean', V.is_bool(cx['force_reload']))]
 
     def lr_post(cx, out):
         eng, st, s = cx.eng, cx.st0, cx['self']
         s1 = out.st
-        R0, F0, G0, C0, M0 = terms(eng, st, s)
+        R0, F0, G0, C0, M0 = terms(st, s)
         if out.kind != 'ret':
             return []
         G1 = g_(s1, s, 'registered_rules')
         return [('registry-untouched', z3.And(G1 == G0, val_(s1, G0) == val_(st, G0)))]
 
-    LR_MODS = ('rules', 'file_rules', 'policy_path', 'use_conf', '_need_check_rule', '_informed_no_policy_file', '$val',
-               '_name', '_check_str', '_check', '_description', '_deprecated_rule', '_deprecated_for_removal',
-               '_deprecated_reason', '_deprecated_since', 'scope_types', 'rule', 'kind', 'match', 'default_rule')
-    reg.add(Contract('policy:Enforcer.load_rules#loading', pre=lr_pre, post=lr_post,
+    def frame_nonstamp(L):
+        r = z3.Int('l1!r')
+        return qforall([r], z3.Implies(z3.And(r < L.entry.ap, z3.Not(stamp(r))),
+                                       z3.Select(L.st.H('$val'), r) == z3.Select(L.entry.H('$val'), r)),
+                       patterns=[z3.Select(L.st.H('$val'), r)])
+
+    def inv1(L):
+        eng, st, s = L.eng, L.st, L.cx['self']
+        lst = L.st.loc['existing_policy_dirs']
+        seq = V.items(val_(st, lst))
+        j = z3.Int('l1!j')
+        return inv(eng, st, s, L.cx.st0, 'i1') + [
+            ('only-stamp-objects-are-written', frame_nonstamp(L)),
+            ('the-list-of-existing-directories-is-a-private-list-of-strings', z3.And(
+                lst == L.entry.loc['existing_policy_dirs'], V.is_obj(lst), clsof(V.ref(lst)) == eng.cid('list'),
+                V.ref(lst) >= L.cx.st0.ap, V.is_list(val_(st, lst)),
+                qforall([j], z3.Implies(z3.And(j >= 0, j < z3.Length(seq)), V.is_str(seq[j]))))),
+            ('the-reload-flag-is-a-boolean', V.is_bool(L.st.loc['force_reload_policy_dirs']))]
+
+    def inv2(L):
+        return inv(L.eng, L.st, L.cx['self'], L.cx.st0, 'i2')
+
+    def inv3(L):
+        eng, st, s = L.eng, L.st, L.cx['self']
+        R, F, G, C, M = terms(st, s)
+        Re = g_(L.entry, s, 'rules')
+        gm = V.m(val_(L.cx.st0, g_(L.cx.st0, s, 'registered_rules')))
+        K = keys_of(gm)
+        rm, rme = V.m(val_(st, R)), V.m(val_(L.entry, Re))
+        j = z3.Int('l3!j')
+        k = z3.String('l3!k')
+        return inv(eng, st, s, L.cx.st0, 'i3') + [
+            ('the-rule-store-object-is-fixed-during-the-merge', R == Re),
+            ('names-defined-before-the-merge-keep-their-check', qforall([k], z3.Implies(
+                z3.Select(rme, k) != ABSENT, z3.Select(rm, k) == z3.Select(rme, k)), patterns=[z3.Select(rm, k)])),
+            ('defaults-visited-so-far-are-in-the-rule-store', qforall([j], z3.Implies(
+                z3.And(j >= 0, j < L.i), z3.Select(rm, K[j]) != ABSENT), patterns=[K[j]]))]
+
+    def lr_cases(cx):
+        eng, st, s = cx.eng, cx.st0, cx['self']
+        active = z3.Or(truthy(g_(st, s, 'use_conf')), truthy(cx['force_reload']))
+        dirs = g_(st, conf_group(eng, st, s), 'policy_dirs')
+        nodirs = z3.Length(V.items(val_(st, dirs))) == 0
+        haspath = truthy(g_(st, s, 'policy_path'))
+        return [z3.Not(active), z3.And(active, nodirs, haspath), z3.And(active, nodirs, z3.Not(haspath)),
+                z3.And(active, z3.Not(nodirs), haspath), z3.And(active, z3.Not(nodirs), z3.Not(haspath))]
+
+    reg.add(Contract('policy:Enforcer.load_rules#loading', pre=lr_pre, post=lr_post, cases=lr_cases, ncases=5,
                      raises=('cfg.ConfigFilesPermissionDeniedError', 'ValueError'), modifies=LR_MODS,
                      frame=lambda cx, f, o, n: [], allocates=True, heap_axioms=tree_axioms, props=('C09', 'C10', 'C12'),
-                     doc='loading view of load_rules'))
+                     loops={1: LoopSpec(inv1, havoc=('$val', 'args')),
+                            2: LoopSpec(inv2, havoc=LR_MODS + ('args',)),
+                            3: LoopSpec(inv3, havoc=('$val', 'rules', 'args'))},
+                     join='all', doc='loading view of load_rules'))
